@@ -26,6 +26,11 @@ def dispatchWF (op : String) (args : List String) : Option String :=
   | "fmttime", [h, m, s] => some (showCps (formatTime (parseNat h) (parseNat m) (parseNat s)))
   | "fmtdt", [y, mo, d, h, m, s] => some (showCps (formatDateTime ⟨parseNat y, parseNat mo, parseNat d⟩ (parseNat h) (parseNat m) (parseNat s)))
   | "tspan", [secs] => some (showCps (luisTimeSpan (parseNat secs)))
+  | "durtimex", [n, code] => some (showCps (durationTimex (parseNat n) (parseCps code)) ++ " " ++
+      (match codeSeconds (parseCps code) with | some k => toString (parseNat n * k) | none => "none"))
+  | "dettype", [t, m] => some (showCps (determineType (parseCps t) (m == "1")))
+  | "ressingle", [t, x, p, f] => some (";".intercalate ((resolveSingle (parseCps t) (parseCps x) (parseCps p) (parseCps f)).map
+      fun v => showCps (v.value.getD [])))
   | _, _ => none
 
 end RTV.Drv
